@@ -32,6 +32,20 @@ def check(rep, tier, seed):
         probes[prof] = out
         if out[0] != "CHARS ok 63488 1048576":
             bad.append((f"c17 ({prof})", out[0], "some Unicode scalar value is neither encoded as 2 bytes nor reported as UnsupportedCharacter"))
+        dts = [l for l in out[1:] if l.startswith("DT ")]
+        out = [out[0]] + [l for l in out[1:] if not l.startswith("DT ")]
+        for l in dts:
+            # DT <kind> <utc seconds> <offset|zone> <ok HEX | err CLASS | panic>
+            f = l.split(" ")
+            if f[4] == "panic":
+                bad.append((f"c17 ({prof})", l, "encoding a date-time at the end of chrono's range unwinds"))
+            elif f[1] == "fixed":
+                local = int(f[2]) + int(f[3])
+                want = "ok" if -8334601228800 <= local <= 8210266876799 else "err"
+                if f[4] != want:
+                    bad.append((f"c17 ({prof})", l, f"expected {want}: the stored local time is "
+                                + ("representable" if want == "ok" else "not representable")))
+        probes[prof + "_datetimes"] = len(dts)
         for l in out[1:]:
             key, _, res = l.rpartition(" ok ") if " ok " in l else l.rpartition(" err ")
             k2 = " ".join(l.split(" ")[:3])
@@ -80,7 +94,10 @@ def check(rep, tier, seed):
                 "Vec<()> of 2^31-1 / 2^31 / 2^31+1 / 2^32 / 2^63-1 elements, iterators whose exact size hint is around "
                 "2^31 / 2^32 / usize::MAX - in release and debug builds; random values with unsupported chars nested "
                 "anywhere (first error wins), transient constructors at any position, evolution steps naming unknown "
-                "fields, a record with 254 evolution steps; error variant and payload compared with the model",
+                "fields, a record with 254 evolution steps; error variant and payload compared with the model; date-times within "
+                "200000 s of both ends of chrono's range seen through 7 fixed offsets, 3 named zones and Local (no "
+                "unwind; an error exactly when the stored local time is not representable)",
+        "datetime_probes": {k: v for k, v in probes.items() if k.endswith("_datetimes")},
         "samples": lines[:2] + lines[n:n + 2] + probes["release"][:3], "exhaustive": True,
         "error_classes": classes, "disagreements_checked": len(cases) + 2000, "disagreements": len(dis),
     })
